@@ -209,6 +209,11 @@ def work(case):
             out["stdout_head"] = (leaked + so.getvalue())[:80]
             errlines = se.getvalue().splitlines()
             out["diag_lines"] = sum(1 for ln in errlines if ln.startswith("sharepoint2text:"))
+            # the diagnostic is the line that starts with the program name; what follows it on stderr belongs to it (a message with a
+            # line break in it); Python warnings of third-party libraries printed before it are not the CLI's diagnostic
+            norm = se.getvalue().rstrip("\r\n").replace("\r\n", "\n").replace("\r", "\n").split("\n") if se.getvalue().strip() else []
+            first = next((i for i, ln in enumerate(norm) if ln.startswith("sharepoint2text:")), None)
+            out["stderr_lines"] = 1 if first is None else len(norm) - first
             out["stderr_head"] = se.getvalue()[:200]
             return out
     raise ValueError(mode)
@@ -223,6 +228,8 @@ def gen_cases(run):
     for name in ("7z-huge-file-count", "7z-huge-stream-count", "zip-huge-entry-count", "7z-self-referential-encoded-header", "7z-encoded-header-chain"):
         sources.setdefault("zip", []).append(["synth", name])
     sources.setdefault("docx", []).append(["synth", "docx-equations-nested-48"])
+    for name in ("epub-hrefs-climb-1", "epub-hrefs-climb-2", "epub-hrefs-climb-3", "epub-hrefs-absolute", "epub-hrefs-dotdot-inside"):
+        sources.setdefault("epub", []).append(["synth", name])
     all_src = [(k, s) for k, v in sources.items() for s in v]
     per_base = run.n(24, 400)
     modes_extra = ["read_file", "cli", "cli-narrow", "cli-json", "cli-json-unit", "cli-json-binary", "zip", "tar", "tgz", "attachment"]
@@ -314,6 +321,8 @@ def judge(run, case, ob):
             run.violation(f"C01:cli:{mode}:exit0-empty-stdout", "CLI exited 0 with nothing on stdout", rep)
         elif code == 1 and ob.get("stdout_len", 0) != 0:
             run.violation(f"C01:cli:{'json' if 'json' in mode else 'text'}-output:exit1-with-partial-stdout", f"CLI exited 1 but wrote {ob['stdout_len']} chars to stdout: {ob.get('stdout_head')!r}; stderr {ob.get('stderr_head')!r}", rep)
+        elif code == 1 and ob.get("diag_lines") == 1 and ob.get("stderr_lines", 1) != 1:
+            run.violation(f"C01:cli:{mode}:exit1-diagnostic-spans-{min(ob.get('stderr_lines'), 3)}-lines", f"CLI exited 1 and its one diagnostic spans {ob.get('stderr_lines')} lines on stderr: {ob.get('stderr_head')!r}", rep)
         elif code == 1 and ob.get("diag_lines") != 1:
             run.violation(f"C01:cli:{mode}:exit1-diagnostic-lines-{ob.get('diag_lines')}", f"CLI exited 1 with {ob.get('diag_lines')} 'sharepoint2text:' lines on stderr: {ob.get('stderr_head')!r}", rep)
         return f"cli{code}"
